@@ -91,9 +91,11 @@ PROPS["C05"] = dict(
             workers=(4, 60), cases=(60, 400), time_s=(45, 800)),
         # FileDeduper alone against a mock index that answers with prefixes of registered xorbs (tiny alphabets, 2-chunk xorbs)
         Job("deduper-xc2", engine="deduper", profile="smallchunk", env={"HF_XET_MAX_XORB_CHUNKS": 2}, workers=(2, 8), cases=(1500, 40000), time_s=(40, 600), **PURE),
+        # answers of one manager while other tasks add records and flush
+        Job("mgrconc-512", engine="shard_mgr_conc", profile="prodlike", env={"HF_XET_MDB_SHARD_MIN_TARGET_SIZE": 512}, workers=(3, 8), cases=(150, 4000), time_s=(40, 600), **PURE),
     ],
     gates=dict(evaluations=(200, 5000), distinct=(40, 100),
-               counters={"hits": (5000, 500000), "partial_hits": (1000, 100000), "collision_resolved_hits": (1000, 100000), "manager_op_keyed-export": (5, 100), "manager_op_consolidate-reopen": (5, 100), "session_deduped_chunks_resolved": (2000, 100000)}),
+               counters={"hits": (5000, 500000), "partial_hits": (1000, 100000), "collision_resolved_hits": (1000, 100000), "manager_op_keyed-export": (5, 100), "manager_op_consolidate-reopen": (5, 100), "session_deduped_chunks_resolved": (2000, 100000), "mgr_conc_query_hits_judged": (1000, 50000)}),
 )
 
 PROPS["C09"] = dict(
@@ -190,6 +192,19 @@ def session_jobs(scale=1.0):
     ]
 
 
+def mgrconc_jobs():
+    """One ShardFileManager under concurrent adds / flushes / queries (conservation of records, truthful answers)."""
+    return [
+        Job("mgrconc-512", engine="shard_mgr_conc", profile="prodlike", env={"HF_XET_MDB_SHARD_MIN_TARGET_SIZE": 512}, workers=(3, 8), cases=(150, 4000), time_s=(40, 600), **PURE),
+        Job("mgrconc-4k", engine="shard_mgr_conc", profile="prodlike", env={"HF_XET_MDB_SHARD_MIN_TARGET_SIZE": 4096}, workers=(2, 8), cases=(150, 4000), time_s=(40, 600), **PURE),
+    ]
+
+
+MGRCONC_RULE = ("In addition one ShardFileManager (shard target 512 B / 4 KiB, so adds cut shards constantly) is driven by 2..8 concurrent tasks on 1/2/4/8-worker runtimes: "
+                "adds of 2..40 xorb records and 0..30 file records, explicit flushes, dedup queries by other tasks; after a final flush every record whose add returned Ok must be "
+                "in the directory's shards (parsed independently of the manager), unchanged, and be found by the live manager; answers given meanwhile must be truthful. ")
+
+
 def deduper_jobs():
     """FileDeduper alone against a mock dedup index: short chunk sequences over tiny alphabets under 2/3/8-chunk xorb limits."""
     return [
@@ -249,12 +264,13 @@ PROPS["C03"] = dict(
 PROPS["C11"] = dict(
     level="exploration",
     technique="history monitor over the store-client log: every xorb put by a session must be in that session's uploaded shards; no chunk stored by an earlier finalized session is put again",
-    rule=SESSION_RULE + "evaluation = one successful session; clause (a) structural per put; clause (b) per session sharing the shard cache with earlier sessions "
+    rule=SESSION_RULE + MGRCONC_RULE + "evaluation = one successful session; clause (a) structural per put; clause (b) per session sharing the shard cache with earlier sessions "
          "(violation only if fragmentation prevention is off or reported no withheld chunk); one configuration runs with fragmentation prevention disabled and re-upload-biased recipes; "
          "non-trivial/distinct as C01",
     assumptions=SESSION_ASSUMPTIONS + ["sessions that deliberately use a fresh shard cache (global-dedup variant) are exempt from clause (b)"],
-    jobs=session_jobs(),
-    gates=dict(evaluations=(400, 20000), distinct=(150, 1000), counters={"new_xorbs_found_in_shards": (2000, 100000), "sessions_checked_for_reupload": (300, 15000)}),
+    jobs=session_jobs() + mgrconc_jobs(),
+    gates=dict(evaluations=(400, 20000), distinct=(150, 1000), counters={"new_xorbs_found_in_shards": (2000, 100000), "sessions_checked_for_reupload": (300, 15000),
+                                                                                     "mgr_conc_records_conserved": (5000, 200000), "mgr_conc_shards_cut": (2000, 80000)}),
 )
 
 PROPS["C14"] = dict(
